@@ -173,7 +173,8 @@ def _slots(o, nm):
     if isinstance(o, dict):
         for k in o:
             if k not in nm.index:
-                raise KeyError(f"key {k!r} is not in the key alphabet of the case")
+                # a key outside the alphabet of the case: the real code invented it; no model value equals this
+                return {"obj": f"dict with unexpected key {k!r}"}
         return [(_slots(o[k], nm) if k in o else None) for k in nm.names]
     if isinstance(o, tuple):
         return {"t": [_slots(x, nm) for x in o]}
@@ -182,8 +183,12 @@ def _slots(o, nm):
     if type(o) is int or isinstance(o, str):
         return o
     if type(o) is float:
-        return _unfloat(o, nm)
-    raise TypeError(f"value {o!r} has no model counterpart")
+        try:
+            return _unfloat(o, nm)
+        except TypeError:
+            return {"obj": f"float {o!r}"}
+    # anything else (None, an object): no model value equals this, the comparison with the reference fails
+    return {"obj": type(o).__name__}
 
 
 def _unslots(j, nm):
@@ -193,6 +198,8 @@ def _unslots(j, nm):
     if isinstance(j, dict):
         if "t" in j:
             return tuple(_unslots(x, nm) for x in j["t"])
+        if "obj" in j:
+            return "<" + j["obj"] + ">"
         return [_unslots(x, nm) for x in j["l"]]
     return j
 
@@ -709,6 +716,13 @@ def run_impl(case):
     res["compute"], hists = _drain_compute(sib, nm, True, two)
     # a second compute() on the same object
     res["compute2"] = _drain_compute(sib, nm, False, two)[0] if case.get("twice") else None
+    # a second SplitIntoBins built around the SAME argument-variable object (and a fresh analysis)
+    res["reuse"] = None
+    if case.get("reuse"):
+        sib2 = SplitIntoBins(_make_cell_analysis(case, case.get("bare_acc", False)), av, _edges_py(case["edges"], S))
+        for v in [_value(j, S) for j in case["flow"]]:
+            sib2.fill(v)
+        res["reuse"] = _drain_compute(sib2, nm, False, two)[0]
     # cells that hold histograms (an inner IterateBins that selected nothing) are outside the second stage
     from lena.structures import histogram
     hists = [(h, c) for (h, c) in hists
@@ -873,6 +887,8 @@ def compare(case, res, replies):
     for k in ("cells", "cur", "compute", "compute2"):
         if res[k] != m[k]:
             return f"{k}: impl {str(res[k])[:700]} vs model {str(m[k])[:700]}"
+    if res.get("reuse") is not None and res["reuse"] != m["compute"]:
+        return f"second SplitIntoBins with the same variable object: impl {str(res['reuse'])[:700]} vs model {str(m['compute'])[:700]}"
     mi = m["iter"]
     if mi is not None and "once" in mi:
         if mi["once"] is not True:
@@ -1219,6 +1235,16 @@ def oracle(case, res):
         if ref["ctx"] is not None and o["c"] != _slots(ref["ctx"], nm):
             return (f"histogram {j}: context {_unslots(o['c'], nm)} is not the context of the last value inside the "
                     f"edges with the argument variable applied, {ref['ctx']}")
+    if res.get("reuse") is not None and ref["end"] == "stop":
+        for j, o in enumerate(res["reuse"]["out"][:n]):
+            if o["bins"] != _enc_bins(ref["hists"][j], nm, bool(case.get("inner"))) or \
+                    (ref["ctx"] is not None and o["c"] != _slots(ref["ctx"], nm)):
+                return (f"a second SplitIntoBins built around the same argument variable object: histogram {j} has "
+                        f"bins {_dec_bins(o['bins'], nm)} and context {_unslots(o['c'], nm)}, expected {ref['hists'][j]} "
+                        f"and {ref['ctx']} (the variable object was changed by the first run)")
+        if len(res["reuse"]["out"]) != n or res["reuse"]["fin"] is not None:
+            return (f"a second SplitIntoBins built around the same argument variable object yields "
+                    f"{len(res['reuse']['out'])} histograms (end {res['reuse']['fin']}) instead of {n}")
     if res.get("iter") and "init" not in res["iter"]:
         msg = _oracle_iter(case, res["iter"], case["iter"], nm)
         if msg:
@@ -1542,6 +1568,8 @@ def _gen_random(rng, big):
     _gen_stages(rng, case, res_int, wild, len(axes))
     if rng.random() < 0.25 and not any(st["k"] == "count" for st in spec["post"]):
         case["twice"] = True                    # compute() a second time on the same object
+    if rng.random() < 0.2:
+        case["reuse"] = True                    # a second SplitIntoBins around the same variable object
     if rng.random() < 0.04:
         bad = rng.random()
         if bad < 0.3:
